@@ -151,6 +151,7 @@ def judge(b, path, original_image, family, name, pos, sieve, stats, measure=Fals
         p = R2.parse(b)
     except R2.Reject as e:
         stats['lenient_load'] = stats.get('lenient_load', 0) + 1
+        bad('a file that is not decodable as an .fjm was loaded', f'FlipJumpReadFjmException ({e})', f'loaded {len(img[0])} nonzero words', 'undecodable: ' + str(e)[:30])
         return outcome
     inc = R2.inconsistencies(p)
     if inc:
@@ -248,6 +249,19 @@ def work(task):
             judge(orig + extra, path, original_image, 'payload', name, f'append{len(extra)}', sieve, stats)
             stats['fired'] += 1
         sample = {'file': name, 'payload_positions': len(list(positions))}
+        if v == 3 and not big:
+            # well-formed LZMA2 streams around the original payload: a ragged byte count must be rejected, whole extra words are unreferenced data
+            import lzma
+            raw = lzma.decompress(orig[table_end:], format=lzma.FORMAT_RAW, filters=[{'id': lzma.FILTER_LZMA2}])
+            wb = w // 8
+            variants = {('minus', k): raw[:len(raw) - k] for k in range(1, min(2 * wb, len(raw)) + 1)}
+            variants.update({('plus', k): raw + b'\x07' * k for k in range(1, 2 * wb + 1)})
+            variants[('empty', 0)] = b''
+            for (how, k), data in variants.items():
+                for preset in (0, 6):
+                    comp = lzma.compress(data, format=lzma.FORMAT_RAW, filters=[{'id': lzma.FILTER_LZMA2, 'preset': preset}])
+                    judge(orig[:table_end] + comp, path, original_image, 'payload', name, f'recompressed-{how}{k}-p{preset}', sieve, stats)
+                    stats['fired'] += 1
     return stats, sieve.result(), sample
 
 
